@@ -94,6 +94,46 @@ Proof.
   eapply NoDup_map_inj; [exact H|apply sobj_in_all; exact Ho|apply sobj_in_all; exact Ho'|exact E].
 Qed.
 
+Lemma keysb_sound p (f : oid -> path) :
+  paths_nodup (map f (all_oids p)) = true ->
+  forall o o', sobj p o <> None -> sobj p o' <> None -> f o = f o' -> o = o'.
+Proof.
+  intros H o o' Ho Ho' E. apply paths_nodup_NoDup in H.
+  eapply NoDup_map_inj; [exact H|apply sobj_in_all; exact Ho|apply sobj_in_all; exact Ho'|exact E].
+Qed.
+
+(* no import statement other than those of module R that bind n can re-export *)
+Definition stmt_only_moveb (R n : N) (m : N) (mi : modinfo) (st : stmt) : bool :=
+  match st with
+  | SImportFrom _ _ names =>
+    forallb (fun oa => negb (memN (snd oa) (exports_of_mod mi)) || (N.eqb m R && N.eqb (snd oa) n)) names
+  | SImportStar _ _ => match exports_of_mod mi with [] => true | _ => false end
+  | _ => true
+  end.
+Definition only_moveb (p : project) (R n : N) : bool :=
+  forallb (fun km => forallb (stmt_only_moveb R n (N.of_nat (fst km)) (snd km)) (m_stmts (snd km)))
+          (combine (seq 0 (length p)) p).
+
+Lemma only_moveb_sound p R n :
+  only_moveb p R n = true ->
+  forall m mi st, modinfo_of p m = Some mi -> In st (m_stmts mi) ->
+    match st with
+    | SImportFrom _ _ nms => forall oa, In oa nms -> In (snd oa) (exports_of_mod mi) -> m = R /\ snd oa = n
+    | SImportStar _ _ => exports_of_mod mi = []
+    | _ => True
+    end.
+Proof.
+  unfold only_moveb. rewrite forallb_forall. intros H m mi st Hmi Hst.
+  specialize (H (N.to_nat m, mi)). cbn [fst snd] in H. rewrite N2Nat.id in H.
+  assert (Hin : In (N.to_nat m, mi) (combine (seq 0 (length p)) p)) by (apply In_combine_seq; split; [lia|rewrite Nat.sub_0_r; exact Hmi]).
+  specialize (H Hin). rewrite forallb_forall in H. specialize (H st Hst).
+  destruct st; cbn [stmt_only_moveb] in *; try exact I.
+  - rewrite forallb_forall in H. intros oa Hoa Hx. specialize (H oa Hoa). apply orb_true_iff in H. destruct H as [H|H].
+    + apply negb_true_iff in H. apply memN_false in H. contradiction.
+    + apply andb_true_iff in H. destruct H as [A B]. apply N.eqb_eq in A. apply N.eqb_eq in B. auto.
+  - destruct (exports_of_mod mi); [reflexivity|discriminate].
+Qed.
+
 Definition stmt_no_moveb (mi : modinfo) (st : stmt) : bool :=
   match st with
   | SImportFrom _ _ names => forallb (fun oa => negb (memN (snd oa) (exports_of_mod mi))) names
